@@ -247,6 +247,12 @@ pub fn c11_inputs(ev: Ev) -> Vec<String> {
     // length 5 over 4 values: all permutations of every multiset of length 5
     let pool4: Vec<&str> = pool6[..4].to_vec();
     lists(&pool4, 5, 5, &mut ls);
+    if frac {
+        // whole values next to fractional ones of either sign (an integer and the fraction that truncates
+        // or rounds to it; the same value written as an integer and with a point): every sequence of length 1..4
+        let near: Vec<&str> = vec!["(-3)", "(-2.5)", "(-2)", "(-2.0)", "(-0.5)", "0", "0.5", "2", "2.5", "3"];
+        lists(&near, 1, 4, &mut ls);
+    }
     let mut names: Vec<&str> = vec!["min", "max", "avg", "med", "median"];
     if ev == Ev::I64 {
         names.push("gcd");
